@@ -287,6 +287,10 @@ def run(chk):
     nbad = 0
     sret_done = False
     for c, bad, m in res:
+        if m.get('frame'):
+            o = m['frame']['obs']
+            chk.dist('frame_layout', 'frame-pointer' if o['keep_fp'] else ('sp-based' if o['sub'] is not None else 'frameless'))
+            chk.dist('callee_saved_regs_saved', len(o['saves']))
         # the one recorded deviation (KNOWN_FINDINGS: c06:sret-rax) is split off; everything else
         # about the same call is still judged
         sret = [b for b in bad if b.startswith(H.SRET_MSG)]
